@@ -36,11 +36,24 @@ def run(run, tier, seed, replay=None):
             progs.append(family.program(rnd))
     # ---- (1) partition / alignment / depth on conforming programs
     cases = [(src, name, 0) for name, src in progs]
+    # violating variants that keep the block structure: an empty line or a comment line put in front of a line that
+    # holds an opening brace (struct/union/enum/function/control block).  Tiling and depth must still hold.
+    variants = set()
+    if replay is None:
+        for name, src in progs:
+            lines = src.split("\n")
+            idx = [i for i, l in enumerate(lines) if l.strip() == "{" and i > 11]
+            for i in rnd.sample(idx, min(len(idx), 3)):
+                ins = rnd.choice(["", "// c", "/* c */", "\t// c"])
+                v = "\n".join(lines[:i] + [ins] + lines[i:])
+                variants.add(v)
+                cases.append((v, name, 0))
     nseg = 0
     for src, name, debug, r in pipeline.run_many(cases):
         data = {"name": name, "src": src}
+        is_variant = src in variants
         if r["kind"] != "ok":
-            if replay is None:
+            if replay is None and not is_variant:
                 found |= run.violation("conforming-program-not-analysed", dict(data, kind=r["kind"], msg=r.get("msg"), exc=r.get("exc")))
             continue
         pops = [e for e in r["events"] if e[0] == "pop"]
@@ -52,7 +65,7 @@ def run(run, tier, seed, replay=None):
                 found |= run.violation("segments-do-not-tile", dict(data, event=e, expected_before=remaining))
                 break
             remaining = max(0, before - stop)
-            if col != 1 or last != "NEWLINE":
+            if (col != 1 or last != "NEWLINE") and not is_variant:
                 found |= run.violation("statement-not-line-aligned", dict(data, event=e))
                 break
         else:
@@ -65,7 +78,7 @@ def run(run, tier, seed, replay=None):
             why = pipeline.engine_compare(drv.call("engine", e), r, exp)
             if why:
                 found |= run.violation("correspondence-registry-loop", dict(data, why=why))
-    run.count("conforming programs: tiling, alignment, depth (statements checked: %d)" % nseg, len(cases), len(cases))
+    run.count("conforming programs + brace-line variants (%d): tiling, alignment, depth (statements checked: %d)" % (len(variants), nseg), len(cases), len(cases))
     # ---- (2) an unrecognisable fragment at a statement boundary must be fatal.  "Unrecognisable" is decided by
     # the tool itself: the same text under -d prints `uncaught ->`.
     if replay is None:
@@ -83,9 +96,34 @@ def run(run, tier, seed, replay=None):
     else:
         ins = [(replay["data"]["src"], replay["data"]["name"], 1)]
     unrec = []
+    seen_unrec = set()
     for src, name, debug, r in pipeline.run_many(ins):
         if r["kind"] == "ok" and r.get("uncaught"):
             unrec.append((src, name, 0))
+            seen_unrec.add(src)
+    # independent of what the tool prints under -d: run every insertion without -d; a run that ends normally although
+    # some iteration of the main loop matched no primary (a token was set aside) has dropped text silently
+    ndirect = 0
+    for src, name, debug, r in pipeline.run_many([(s_, n_, 0) for s_, n_, _ in ins]):
+        if r["kind"] != "ok":
+            continue
+        pending, aside = False, 0
+        for ev in r["events"]:
+            if ev[0] == "match":
+                pending = True
+            else:
+                if not pending:
+                    aside += 1
+                pending = False
+        if aside:
+            ndirect += 1
+            found |= run.violation("unrecognised-text-dropped", {"name": name, "src": src, "status": r.get("status"), "tokens_set_aside": aside})
+        elif drv is not None and r["ntokens"] is not None:
+            e, exp = pipeline.engine_request(r, 0)
+            why = pipeline.engine_compare(drv.call("engine", e), r, exp)
+            if why:
+                found |= run.violation("correspondence-registry-loop", {"name": name, "src": src, "why": why})
+    run.count("fragment insertions run without -d (events inspected for tokens set aside)", len(ins), len(ins))
     nfatal = 0
     for src, name, debug, r in pipeline.run_many(unrec):
         if r["kind"] == "fatal":
